@@ -57,20 +57,29 @@ def run_child(cmd, timeout, cwd=None, env=None, stdin_data=None):
 
 
 # ---------------------------------------------------------------- Coq
-def coq_build(log=None):
-    """Translate the kernel of /repo, then make the whole development. Returns
-    (ok, text, failing_file_or_None)."""
+def coq_build(targets=()):
+    """Translate the kernel and the cache decisions of /repo, then make the given targets
+    (relative to /verif/coq, e.g. theories/Props/C01.vo) - full .vo build, never -vos.
+    Returns (ok, text, failing_file_or_None)."""
     os.makedirs(BUILD, exist_ok=True)
     t0 = time.time()
     env = dict(os.environ); env["VERIF_REPO"] = REPO
-    r = subprocess.run([os.path.join(COQ, "build.sh")], capture_output=True, text=True, env=env)
-    if r.returncode == 3:
-        return False, "translator: " + r.stdout + r.stderr, "translator"
+    r = subprocess.run([os.path.join(COQ, "build.sh")] + list(targets), capture_output=True, text=True, env=env)
     text = r.stdout + r.stderr
     if r.returncode != 0:
         m = re.search(r'File "\./(theories/[^"]+)"', text)
         return False, text[-3000:], (m.group(1) if m else "unknown")
     return True, "built in %.1fs" % (time.time() - t0), None
+
+
+def translator_status(which):
+    """(ok, message) of the last translation: which = 'kernel' | 'cache'"""
+    p = os.path.join(COQ, "theories", "Gen", which + ".status")
+    try:
+        txt = open(p).read()
+    except OSError:
+        return False, "no status file"
+    return txt.strip().endswith("exit 0"), txt[-1500:]
 
 
 HYGIENE_RE = re.compile(r"\b(Admitted|admit|Axiom|Axioms|Parameter|Parameters|Conjecture|Hypothesis|Variable[s]?)\b|Unset\s+Guard|bypass_check|type-in-type|impredicative-set|Admit Obligations")
